@@ -1,4 +1,5 @@
 import HapModel.Model.GenoIO
+import HapModel.Model.Subset
 /-!
 # C08 — Restricted reads equal full read + subset, for VCF and PGEN alike
 
@@ -48,5 +49,30 @@ theorem samples_in_file_order (fileSamples : List String) (req : Option (List St
     rw [List.zipIdx_map_snd]
     exact List.pairwise_lt_range'
   exact List.Pairwise.sublist (List.Sublist.map _ List.filter_sublist) h1
+
+/-- **subsetting a loaded object**: any sequence of `index()` / `subset(samples, variants, inplace)` calls on a freshly
+    loaded object – in place or not, any requested names in any order, unknown names included, pure re-orderings
+    included – returns at every step what the cache-free specification returns, leaves the object with the contents
+    the specification gives it, and never leaves a stale name→row dictionary behind -/
+theorem subset_sequences_refine_spec (c : Subset.Contents) (ops : List Subset.Op) :
+    (Subset.run (Subset.fresh c) ops).2 = (Subset.specRun c ops).2 ∧
+    (Subset.run (Subset.fresh c) ops).1.toContents = (Subset.specRun c ops).1 ∧
+    Subset.CacheOK (Subset.run (Subset.fresh c) ops).1 :=
+  Subset.run_refines ops (Subset.fresh c) (Subset.fresh_cacheOK c)
+
+/-- what the specification selects: the requested samples / variant IDs that the object holds, in the requested
+    order (unknown ones dropped), each selected row being the row stored under that sample's name -/
+theorem subset_requested_order (c : Subset.Contents) (rs cs : List String) :
+    (Subset.select c (some rs) (some cs)).samples = rs.filter (fun n => decide (n ∈ c.samples)) ∧
+    (Subset.select c (some rs) (some cs)).variants = cs.filter (fun n => decide (n ∈ c.variants)) ∧
+    (Subset.select c (some rs) none).data =
+      ((rs.filter (fun n => decide (n ∈ c.samples))).filterMap (fun n => c.samples.idxOf? n)).map
+        (fun i => c.data.getD i []) :=
+  ⟨Subset.select_samples c rs (some cs), Subset.select_variants_names c (some rs) cs, Subset.select_rows c rs⟩
+
+/-- non-vacuity / the stale-index scenario: re-order in place, then subset again – the second subset follows the new order -/
+example : (Subset.run (Subset.fresh ⟨["a", "b"], ["v"], [[1], [2]]⟩)
+    [.subset (some ["b", "a"]) none true, .subset (some ["a"]) none false]).2 =
+    [some ⟨["b", "a"], ["v"], [[2], [1]]⟩, some ⟨["a"], ["v"], [[1]]⟩] := by decide
 
 end C08
